@@ -489,12 +489,13 @@ def m_iter_position(e, st, fr, t, a):
 
 
 def m_slice_iter_mut(e, st, fr, t, a):
-    """[T]::iter_mut / Vec::iter_mut: mutable references to the elements (materialised in a snapshot object that is
-    written back is not needed here: elements are handles or boxed values whose identity lives elsewhere)"""
+    """[T]::iter_mut / Vec::iter_mut: mutable references to the elements"""
     v = deref_arg(e, st, a[0])
     if not (isinstance(v, VAgg) and v.name == 'Vec'):
         return NotImplemented
-    raise Unsupported("iter_mut over a modelled Vec (element mutation is not written back)")
+    base = _target_of_pin(e, st, a[0])
+    # mutable references straight into the sequence: path element ('item', i) is resolved by the engine
+    return _veciter([VRef(base.root, base.path + (('item', i),), True) for i in range(len(v.extra['items']))])
 
 
 def m_abort_new_pair(e, st, fr, t, a):
@@ -737,6 +738,9 @@ def m_hashmap_contains_key(e, st, fr, t, a):
 def _struct_eq(e, st, a, b, depth=0):
     """structural equality of two fully concrete values (what a derived PartialEq computes); None if not decidable"""
     a, b = deref_arg(e, st, a), deref_arg(e, st, b)
+    if isinstance(a, VConst) and isinstance(b, VConst) and a.text.startswith('TypeId:') and b.text.startswith('TypeId:'):
+        import sysmodels as S
+        return S._key_repr(e, st, a) == S._key_repr(e, st, b)
     if isinstance(a, VScalar) and isinstance(b, VScalar):
         x, y = e.as_int_expr(a), e.as_int_expr(b)
         if isinstance(x, int) and isinstance(y, int):
@@ -755,6 +759,72 @@ def _struct_eq(e, st, a, b, depth=0):
                 return False
         return True
     return None
+
+
+# ---- std::sync::atomic (a poll is atomic in this model, so atomics are plain cells with interior mutability)
+_ATOMIC = r'(std::sync::atomic::|core::sync::atomic::)?(Atomic(Bool|Usize|Isize|U8|U16|U32|U64|I8|I16|I32|I64)|Atomic::<\w+>)'
+_ATOMIC_TY = r'(std::sync::atomic::|core::sync::atomic::)?(Atomic(Bool|Usize|Isize|U8|U16|U32|U64|I8|I16|I32|I64)|Atomic<\w+>)'
+
+
+def _atomic_at(e, st, ref):
+    r = peel(e, st, ref)
+    v = _load(e, st, r)
+    if isinstance(v, VAgg) and v.name == 'Atomic':
+        return r, v
+    return r, None
+
+
+def m_atomic_new(e, st, fr, t, a):
+    return VAgg(name='Atomic', fields={('f', 0): a[0]})
+
+
+def m_atomic_default(e, st, fr, t, a):
+    return VAgg(name='Atomic', fields={('f', 0): VScalar(False if ('AtomicBool' in t.func or 'Atomic<bool>' in t.func) else 0)})
+
+
+def m_atomic_load(e, st, fr, t, a):
+    r, v = _atomic_at(e, st, a[0])
+    return NotImplemented if v is None else v.fields[('f', 0)]
+
+
+def m_atomic_store(e, st, fr, t, a):
+    r, v = _atomic_at(e, st, a[0])
+    if v is None:
+        return NotImplemented
+    _store(e, st, VRef(r.root, r.path, True), VAgg(name='Atomic', fields={('f', 0): a[1]}))
+    return UNIT
+
+
+def m_atomic_swap(e, st, fr, t, a):
+    r, v = _atomic_at(e, st, a[0])
+    if v is None:
+        return NotImplemented
+    _store(e, st, VRef(r.root, r.path, True), VAgg(name='Atomic', fields={('f', 0): a[1]}))
+    return v.fields[('f', 0)]
+
+
+def m_atomic_fetch(e, st, fr, t, a):
+    r, v = _atomic_at(e, st, a[0])
+    if v is None:
+        return NotImplemented
+    old = v.fields[('f', 0)]
+    op = re.search(r'::fetch_(add|sub|or|and)$', t.func).group(1)
+    x, y = e.as_int_expr(old), e.as_int_expr(a[1])
+    if not (isinstance(x, (int, bool)) and isinstance(y, (int, bool))):
+        raise Unsupported("atomic read-modify-write on a symbolic value")
+    new = {'add': lambda: x + y, 'sub': lambda: x - y, 'or': lambda: x | y, 'and': lambda: x & y}[op]()
+    if isinstance(old.v, bool):
+        new = bool(new)
+    _store(e, st, VRef(r.root, r.path, True), VAgg(name='Atomic', fields={('f', 0): VScalar(new)}))
+    return old
+
+
+def m_duration_from(e, st, fr, t, a):
+    from engine import duration_literal
+    n = e.as_int_expr(a[0]) if isinstance(a[0], VScalar) else None
+    if not isinstance(n, int):
+        return NotImplemented
+    return duration_literal(t.func, [str(n)])
 
 
 def m_partial_ne(e, st, fr, t, a):
@@ -873,6 +943,13 @@ def install(eng: Engine):
     add(Rs + r'or::<', m_res_or)
     add(r'^(core::bool::<impl )?bool>?::then::<', m_bool_then)
     add(r'^(core::bool::<impl )?bool>?::then_some::<', m_bool_then_some)
+    add(r'^(std::time::|core::time::)?Duration::from_(secs|millis|micros|nanos)$', m_duration_from)
+    add('^' + _ATOMIC + r'::new$', m_atomic_new)
+    add('^<' + _ATOMIC_TY + r' as Default>::default$', m_atomic_default)
+    add('^' + _ATOMIC + r'::load$', m_atomic_load)
+    add('^' + _ATOMIC + r'::store$', m_atomic_store)
+    add('^' + _ATOMIC + r'::swap$', m_atomic_swap)
+    add('^' + _ATOMIC + r'::fetch_(add|sub|or|and)$', m_atomic_fetch)
     add(r'^<.* as PartialEq(<.*>)?>::ne$', m_partial_ne)
     add(r'^<.* as PartialEq(<.*>)?>::eq$', m_partial_eq)
     add(r'^(std::task::)?Poll::<.*>::map_err::<', m_poll_map_err)
